@@ -77,7 +77,7 @@ def run(tier, seed):
     rng = random.Random(seed * 7919 + 14)
     quick = tier != 'thorough'
     items, asts = [], []
-    for i in range(150 if quick else 3000):
+    for i in range(150 if quick else 600):
         s = rng.randrange(1 << 30)
         ast, src = genprog.gen_expr_program(s, wide=(i % 3 == 2))      # every third program: 4-byte unsigned and 8-byte operands, constants beyond 32 bits
         items.append(('expr:%d' % s, src, [rng.choice(['-O1', '-O2', '-O3'])] + (['-fstrings-as-u8'] if i % 2 else []) + (['-funsafe-string-indexing'] if i % 7 == 0 else [])))
